@@ -83,6 +83,12 @@ Theorem C11_negate : forall v k, vkey v (negate k) = negb (vkey v k).
 Proof. exact vkey_negate. Qed.
 Print Assumptions C11_negate.
 
+(* the extracted oracle used by the correspondence runs [run_trace]; status 0 means [run] is Ok with the same state *)
+Theorem C11_trace_is_run : forall o pcl ops r acc rets r',
+  run_trace o pcl r ops acc = (rets, r', 0%nat) -> run o pcl r ops = Ok r'.
+Proof. exact run_trace_ok. Qed.
+Print Assumptions C11_trace_is_run.
+
 (* NOT proved (see notes/C11.md):
    C11_builder_complete : forall ... run o pcl init ops = Ok r ->
      forall a w, sol a (rg r) w -> exists v, sol a (nodes (impl r)) v /\ forall i in range, pull (rmap r) v i = w i
